@@ -355,8 +355,8 @@ class Pool(localbase):
         if pool.con is None:
             if core.local.debug: core.log_orm('GET NEW CONNECTION')
             is_new_connection = True
+            pool.pid = pid  # _connect() may fail after it has assigned pool.con: that connection belongs to this process
             pool._connect()
-            pool.pid = pid
         elif core.local.debug:
             core.log_orm('GET CONNECTION FROM THE LOCAL POOL')
         return pool.con, is_new_connection
